@@ -43,6 +43,7 @@ VARIABLES st,           \* "Inited" | "Running"                      (state_)
           kin,          \* offsets written by the peer, not yet read by readv()
           rbuf,         \* recv_buff_ : offsets read, not yet consumed by the user
           thr,          \* receive threshold
+          bound,        \* bind(): a receiver ByteStream is bound; what is read is forwarded to it instead of the callback
           pclosed,      \* the peer closed (its side of) the stream
           pabort,       \* ... by aborting (RST): the read that finds the kernel empty fails with ECONNRESET instead of returning 0
           eofRep,       \* number of read-zero / disconnected notifications
@@ -54,7 +55,7 @@ VARIABLES st,           \* "Inited" | "Running"                      (state_)
           pres, presFrom, \* last presentation and the consumed count at that time
           lastComplete, \* TRUE in the state right after a send-complete notification
           ndis
-vars == <<st, alive, cb, sendq, kout, got, wrArmed, kin, rbuf, thr, pclosed, pabort, eofRep,
+vars == <<st, alive, cb, sendq, kout, got, wrArmed, kin, rbuf, thr, bound, pclosed, pabort, eofRep,
           nsent, npw, consumed, presented, pres, presFrom, lastComplete, ndis>>
 
 Seg(a, n)  == [i \in 1..n |-> a + i]               \* offsets a+1 .. a+n
@@ -66,7 +67,7 @@ readTot    == npw - Len(kin)                        \* bytes read from the kerne
 Init ==
   /\ st = (IF Tcp THEN "Running" ELSE "Inited") /\ alive = "alive" /\ cb = 0
   /\ sendq = <<>> /\ kout = <<>> /\ got = <<>> /\ wrArmed = FALSE
-  /\ kin = <<>> /\ rbuf = <<>> /\ thr \in Thrs /\ pclosed = FALSE /\ pabort = FALSE /\ eofRep = 0
+  /\ kin = <<>> /\ rbuf = <<>> /\ thr \in Thrs /\ bound = FALSE /\ pclosed = FALSE /\ pabort = FALSE /\ eofRep = 0
   /\ nsent = 0 /\ npw = 0 /\ consumed = 0 /\ presented = 0 /\ pres = <<>> /\ presFrom = 0
   /\ lastComplete = FALSE /\ ndis = 0
 
@@ -82,7 +83,7 @@ Send(n) ==
             /\ sendq' = sendq \o Drop(new, k)
             /\ wrArmed' = TRUE
   /\ lastComplete' = FALSE
-  /\ UNCHANGED <<st, alive, cb, got, kin, rbuf, thr, pclosed, pabort, eofRep, npw, consumed, presented, pres, presFrom, ndis>>
+  /\ UNCHANGED <<st, alive, cb, got, kin, rbuf, thr, bound, pclosed, pabort, eofRep, npw, consumed, presented, pres, presFrom, ndis>>
 
 (* --- BufferedFd::enable / disable ------------------------------------------ *)
 Enable ==
@@ -91,13 +92,13 @@ Enable ==
   /\ st' = "Running"
   /\ wrArmed' = (sendq # <<>> /\ "noarm" \notin Bugs)    \* intended: queued bytes must get their write event
   /\ lastComplete' = FALSE
-  /\ UNCHANGED <<alive, cb, sendq, kout, got, kin, rbuf, thr, pclosed, pabort, eofRep, nsent, npw, consumed, presented, pres, presFrom, ndis>>
+  /\ UNCHANGED <<alive, cb, sendq, kout, got, kin, rbuf, thr, bound, pclosed, pabort, eofRep, nsent, npw, consumed, presented, pres, presFrom, ndis>>
 
 Disable ==
   /\ ~Tcp /\ alive = "alive" /\ st = "Running" /\ ndis < MaxDisable
   /\ st' = "Inited" /\ wrArmed' = FALSE /\ ndis' = ndis + 1
   /\ lastComplete' = FALSE
-  /\ UNCHANGED <<alive, cb, sendq, kout, got, kin, rbuf, thr, pclosed, pabort, eofRep, nsent, npw, consumed, presented, pres, presFrom>>
+  /\ UNCHANGED <<alive, cb, sendq, kout, got, kin, rbuf, thr, bound, pclosed, pabort, eofRep, nsent, npw, consumed, presented, pres, presFrom>>
 
 (* --- onWriteCallback --------------------------------------------------------- *)
 (* Empty queue: disarm FIRST, then notify send-complete (cb = 3 while the user callback is on the stack, so a   *)
@@ -117,38 +118,38 @@ WritableCb ==
                THEN lastComplete' = TRUE /\ cb' = 4
                ELSE lastComplete' = ("complete_early" \in Bugs) /\ cb' = cb
             /\ UNCHANGED wrArmed
-  /\ UNCHANGED <<st, alive, got, kin, rbuf, thr, pclosed, pabort, eofRep, nsent, npw, consumed, presented, pres, presFrom, ndis>>
+  /\ UNCHANGED <<st, alive, got, kin, rbuf, thr, bound, pclosed, pabort, eofRep, nsent, npw, consumed, presented, pres, presFrom, ndis>>
 
 CompleteExit ==                     \* the send-complete callback returns
   /\ cb \in {3, 4}
   /\ cb' = 0 /\ lastComplete' = FALSE
   /\ wrArmed' = (IF cb = 4 THEN FALSE ELSE wrArmed)
-  /\ UNCHANGED <<st, alive, sendq, kout, got, kin, rbuf, thr, pclosed, pabort, eofRep, nsent, npw, consumed, presented, pres, presFrom, ndis>>
+  /\ UNCHANGED <<st, alive, sendq, kout, got, kin, rbuf, thr, bound, pclosed, pabort, eofRep, nsent, npw, consumed, presented, pres, presFrom, ndis>>
 
 (* --- the peer ------------------------------------------------------------------ *)
 PeerRead(m) ==
   /\ m \in 1 .. Len(kout)
   /\ got' = got \o Take(kout, m) /\ kout' = Drop(kout, m)
   /\ lastComplete' = FALSE
-  /\ UNCHANGED <<st, alive, cb, sendq, wrArmed, kin, rbuf, thr, pclosed, pabort, eofRep, nsent, npw, consumed, presented, pres, presFrom, ndis>>
+  /\ UNCHANGED <<st, alive, cb, sendq, wrArmed, kin, rbuf, thr, bound, pclosed, pabort, eofRep, nsent, npw, consumed, presented, pres, presFrom, ndis>>
 
 PeerWrite(m) ==
   /\ ~pclosed /\ npw + m <= MaxPeer /\ Len(kin) + m <= KI
   /\ kin' = kin \o Seg(npw, m) /\ npw' = npw + m
   /\ lastComplete' = FALSE
-  /\ UNCHANGED <<st, alive, cb, sendq, kout, got, wrArmed, rbuf, thr, pclosed, pabort, eofRep, nsent, consumed, presented, pres, presFrom, ndis>>
+  /\ UNCHANGED <<st, alive, cb, sendq, kout, got, wrArmed, rbuf, thr, bound, pclosed, pabort, eofRep, nsent, consumed, presented, pres, presFrom, ndis>>
 
 PeerClose ==
   /\ ~pclosed /\ pclosed' = TRUE /\ pabort' = pabort
   /\ lastComplete' = FALSE
-  /\ UNCHANGED <<st, alive, cb, sendq, kout, got, wrArmed, kin, rbuf, thr, eofRep, nsent, npw, consumed, presented, pres, presFrom, ndis>>
+  /\ UNCHANGED <<st, alive, cb, sendq, kout, got, wrArmed, kin, rbuf, thr, bound, eofRep, nsent, npw, consumed, presented, pres, presFrom, ndis>>
 
 (* the peer aborts (SO_LINGER 0 + close, or close with unread input): data it wrote just before is still in kin; *)
 (* the drain loop of the read callback reads it and then runs into ECONNRESET in the same wake-up.                *)
 PeerAbort ==
   /\ ~pclosed /\ pclosed' = TRUE /\ pabort' = TRUE
   /\ lastComplete' = FALSE
-  /\ UNCHANGED <<st, alive, cb, sendq, kout, got, wrArmed, kin, rbuf, thr, eofRep, nsent, npw, consumed, presented, pres, presFrom, ndis>>
+  /\ UNCHANGED <<st, alive, cb, sendq, kout, got, wrArmed, kin, rbuf, thr, bound, eofRep, nsent, npw, consumed, presented, pres, presFrom, ndis>>
 
 (* Intended: the bytes read before the error are delivered first (RecvEnter); the close is reported by a later     *)
 (* wake-up (ReadZeroEnter: read error or read zero).  Bug "error_first": the error that ended the drain loop is    *)
@@ -161,25 +162,42 @@ RecvErrorFirst ==
   /\ IF Tcp THEN st' = "Inited" /\ wrArmed' = FALSE /\ alive' = "detached"
      ELSE alive' = alive /\ (IF UserDisablesOnEof THEN st' = "Inited" /\ wrArmed' = FALSE ELSE UNCHANGED <<st, wrArmed>>)
   /\ lastComplete' = FALSE
-  /\ UNCHANGED <<sendq, kout, got, thr, pclosed, pabort, nsent, npw, consumed, presented, pres, presFrom, ndis>>
+  /\ UNCHANGED <<sendq, kout, got, thr, bound, pclosed, pabort, nsent, npw, consumed, presented, pres, presFrom, ndis>>
 
 (* --- onReadCallback, data: drain the kernel, then call the user if >= threshold --- *)
 RecvEnter ==
   /\ st = "Running" /\ cb = 0 /\ kin # <<>>
   /\ LET all == rbuf \o kin IN
-     /\ kin' = <<>> /\ rbuf' = all
-     /\ IF Len(all) >= thr
-        THEN /\ cb' = 1 /\ pres' = all /\ presFrom' = consumed /\ presented' = npw
-        ELSE UNCHANGED <<cb, pres, presFrom, presented>>
+     /\ kin' = <<>>
+     /\ IF bound
+        THEN \* forwarding mode: everything unconsumed - also what the callback left before bind() - goes to the receiver.
+             \* Bug "fastpath": only the new bytes are forwarded (read into a stack buffer), recv_buff_ is bypassed.
+             IF "fastpath" \in Bugs
+             THEN /\ rbuf' = rbuf /\ pres' = kin /\ presFrom' = consumed /\ consumed' = consumed + Len(kin)
+                  /\ presented' = npw /\ cb' = cb
+             ELSE /\ rbuf' = <<>> /\ pres' = all /\ presFrom' = consumed /\ consumed' = consumed + Len(all)
+                  /\ presented' = npw /\ cb' = cb
+        ELSE /\ rbuf' = all /\ consumed' = consumed
+             /\ IF Len(all) >= thr
+                THEN /\ cb' = 1 /\ pres' = all /\ presFrom' = consumed /\ presented' = npw
+                ELSE UNCHANGED <<cb, pres, presFrom, presented>>
   /\ lastComplete' = FALSE
-  /\ UNCHANGED <<st, alive, sendq, kout, got, wrArmed, thr, pclosed, pabort, eofRep, nsent, npw, consumed, ndis>>
+  /\ UNCHANGED <<st, alive, sendq, kout, got, wrArmed, thr, bound, pclosed, pabort, eofRep, nsent, npw, ndis>>
+
+(* bind() / unbind() (BufferedFd, TcpClient); the unconsumed bytes stay in recv_buff_ until the next data arrives *)
+Bind ==
+  /\ alive = "alive" /\ ~bound /\ bound' = TRUE /\ lastComplete' = FALSE
+  /\ UNCHANGED <<st, alive, cb, sendq, kout, got, wrArmed, kin, rbuf, thr, pclosed, pabort, eofRep, nsent, npw, consumed, presented, pres, presFrom, ndis>>
+Unbind ==
+  /\ alive = "alive" /\ bound /\ bound' = FALSE /\ lastComplete' = FALSE
+  /\ UNCHANGED <<st, alive, cb, sendq, kout, got, wrArmed, kin, rbuf, thr, pclosed, pabort, eofRep, nsent, npw, consumed, presented, pres, presFrom, ndis>>
 
 RecvExit(c) ==                      \* the callback returns having consumed c bytes
   /\ cb = 1 /\ c \in 0 .. Len(rbuf)
   /\ cb' = 0 /\ consumed' = consumed + c
   /\ rbuf' = (IF "norepresent" \in Bugs THEN <<>> ELSE Drop(rbuf, c))
   /\ lastComplete' = FALSE
-  /\ UNCHANGED <<st, alive, sendq, kout, got, wrArmed, kin, thr, pclosed, pabort, eofRep, nsent, npw, presented, pres, presFrom, ndis>>
+  /\ UNCHANGED <<st, alive, sendq, kout, got, wrArmed, kin, thr, bound, pclosed, pabort, eofRep, nsent, npw, presented, pres, presFrom, ndis>>
 
 (* --- onReadCallback, readv() == 0 -------------------------------------------------- *)
 ReadZeroEnter ==
@@ -191,12 +209,12 @@ ReadZeroEnter ==
      ELSE /\ alive' = alive
           /\ IF UserDisablesOnEof THEN st' = "Inited" /\ wrArmed' = FALSE ELSE UNCHANGED <<st, wrArmed>>
   /\ lastComplete' = FALSE
-  /\ UNCHANGED <<sendq, kout, got, kin, rbuf, thr, pclosed, pabort, nsent, npw, consumed, presented, pres, presFrom, ndis>>
+  /\ UNCHANGED <<sendq, kout, got, kin, rbuf, thr, bound, pclosed, pabort, nsent, npw, consumed, presented, pres, presFrom, ndis>>
 
 ReadZeroExit ==
   /\ cb = 2
   /\ cb' = 0 /\ lastComplete' = FALSE
-  /\ UNCHANGED <<st, alive, sendq, kout, got, wrArmed, kin, rbuf, thr, pclosed, pabort, eofRep, nsent, npw, consumed, presented, pres, presFrom, ndis>>
+  /\ UNCHANGED <<st, alive, sendq, kout, got, wrArmed, kin, rbuf, thr, bound, pclosed, pabort, eofRep, nsent, npw, consumed, presented, pres, presFrom, ndis>>
 
 (* --- TcpConnection::disconnect (also from inside a callback) and the deferred delete --- *)
 LocalDisconnect ==
@@ -204,7 +222,7 @@ LocalDisconnect ==
   /\ st' = "Inited" /\ wrArmed' = FALSE
   /\ alive' = (IF "delete_now" \in Bugs THEN "freed" ELSE "detached")
   /\ lastComplete' = FALSE
-  /\ UNCHANGED <<cb, sendq, kout, got, kin, rbuf, thr, pclosed, pabort, eofRep, nsent, npw, consumed, presented, pres, presFrom, ndis>>
+  /\ UNCHANGED <<cb, sendq, kout, got, kin, rbuf, thr, bound, pclosed, pabort, eofRep, nsent, npw, consumed, presented, pres, presFrom, ndis>>
 
 RunNextDelete ==
   /\ alive = "detached" /\ cb = 0           \* deferred tasks run after the descriptor callbacks of the pass
@@ -212,7 +230,7 @@ RunNextDelete ==
   \* the descriptor is closed here: what is already in the kernel keeps flowing to the peer (graceful close);
   \* bug "linger0": close() resets the connection and discards the kernel send queue
   /\ kout' = (IF "linger0" \in Bugs THEN <<>> ELSE kout)
-  /\ UNCHANGED <<st, cb, sendq, got, wrArmed, kin, rbuf, thr, pclosed, pabort, eofRep, nsent, npw, consumed, presented, pres, presFrom, ndis>>
+  /\ UNCHANGED <<st, cb, sendq, got, wrArmed, kin, rbuf, thr, bound, pclosed, pabort, eofRep, nsent, npw, consumed, presented, pres, presFrom, ndis>>
 
 SendAny      == \E n \in 1 .. MaxSend : Send(n)
 PeerReadAny  == \E m \in 1 .. K : PeerRead(m)
@@ -223,7 +241,7 @@ Next ==
   \/ SendAny \/ Enable \/ Disable \/ WritableCb
   \/ PeerReadAny \/ PeerWriteAny \/ PeerClose \/ PeerAbort \/ RecvErrorFirst
   \/ RecvEnter \/ RecvExitAny \/ ReadZeroEnter \/ ReadZeroExit \/ CompleteExit
-  \/ LocalDisconnect \/ RunNextDelete
+  \/ LocalDisconnect \/ RunNextDelete \/ Bind \/ Unbind
 
 Spec == Init /\ [][Next]_vars
 
@@ -235,7 +253,7 @@ FairSpec == Spec /\ WF_vars(WritableCb) /\ WF_vars(PeerReadAny) /\ WF_vars(Enabl
 (* ------------------------------- properties --------------------------------------- *)
 TypeOK ==
   /\ st \in {"Inited", "Running"} /\ alive \in {"alive", "detached", "freed"} /\ cb \in {0, 1, 2, 3, 4}
-  /\ wrArmed \in BOOLEAN /\ pclosed \in BOOLEAN /\ pabort \in BOOLEAN /\ lastComplete \in BOOLEAN
+  /\ wrArmed \in BOOLEAN /\ bound \in BOOLEAN /\ pclosed \in BOOLEAN /\ pabort \in BOOLEAN /\ lastComplete \in BOOLEAN
   /\ Len(kout) <= K /\ Len(kin) <= KI
 
 (* nothing lost, duplicated or reordered on the way to the peer *)
